@@ -128,7 +128,10 @@ def _gen_config(g, dense=None):
     if g.random() < 0.3:
         hol = hol + g.sample(hol, min(len(hol), 3))      # listed twice
     g.shuffle(hol)                                        # unsorted
-    hol = [h for h in hol if t0 <= h <= t1]
+    keep_outside = g.random() < 0.3
+    outside = [t0 - datetime.timedelta(days=g.choice([1, 3, 40, 400])) for _ in range(g.choice([1, 2, 3]))] + [t1 + datetime.timedelta(days=g.choice([1, 10, 366]))]
+    hol = [h for h in hol if t0 <= h <= t1] + (outside if keep_outside else [])
+    g.shuffle(hol)
     return {'hol': [_iso(h) for h in hol], 'weekend': g.choice(WEEKENDS), 't0': _iso(t0), 't1': _iso(t1)}
 
 
@@ -213,6 +216,8 @@ def generate(st):
     last_target = None
     while len(ops) < cfg['n_ops']:
         r = f.random() if cfg['faulty'] else 1.0
+        if g.random() < 0.004:
+            ops.append({'op': 'many_keys', 'n': g.choice([31, 32, 33, 40, 70])})
         if cfg['faulty'] and g.random() < 0.12:
             ops.append({'op': 'clock', 's': g.choice([-86400 * 3, -2, 0, 5, 3600, 86400 * 40])})
         if r < cfg['p_rereg'] * 0.25:
@@ -225,12 +230,15 @@ def generate(st):
             last_target = 'key:' + key
         elif r < cfg['p_rereg']:
             key = g.choice(keys)
-            via = g.choice(['args', 'args', 'obj', 'obj_with_holidays'])
+            via = g.choice(['args', 'args', 'obj', 'obj_with_holidays', 'obj_with_weekend'])
             old = current['key:' + key]
             c = _gen_config(g)
             if via == 'obj_with_holidays':
                 c = dict(old, hol=c['hol'] if c['hol'] else [old['t0']])
                 c['hol'] = [h for h in c['hol'] if old['t0'] <= h <= old['t1']] or [_iso(_d(old['t0']) + 200 * DAY)]
+            if via == 'obj_with_weekend':
+                nw = g.choice([w for w in WEEKENDS if w and w != old['weekend']] or [[5, 6]])
+                c = dict(old, weekend=nw)
             if via == 'args' and g.random() < 0.3:
                 c = dict(old, hol=c['hol'])       # same range and weekend, other holidays
                 c['hol'] = [h for h in c['hol'] if old['t0'] <= h <= old['t1']]
@@ -275,6 +283,12 @@ def execute(trace, ctx=None):
         for k, op in enumerate(trace['ops']):
             state['step'] = k
             kind = op['op']
+            if kind == 'many_keys':
+                # other users of the process register calendars of their own; ours must still be there afterwards
+                for j in range(op['n']):
+                    lib(lambda j=j: calendar('other%d' % j, holidays=[datetime.datetime(2020, 1, 1 + j % 28)], t0=datetime.datetime(2019, 1, 1), t1=datetime.datetime(2021, 1, 1)), 'calendar(other key)')
+                res.probe('many-other-keys-registered')
+                continue
             if kind == 'clock':
                 from sim.seams import SimClock
                 SimClock.advance(datetime.timedelta(seconds=op['s']))
@@ -316,6 +330,14 @@ def execute(trace, ctx=None):
                     obj = Calendar(key, holidays=hol, weekend=weekend, t0=t0, t1=t1, adj=op.get('adj', 'm'))
                     lib(lambda: calendar(obj), 'calendar(calendar_object)')
                     refs[tkey] = Ref(hol, weekend, t0, t1, op.get('adj', 'm'))
+                elif via == 'obj_with_weekend':
+                    old = refs[tkey]
+                    obj = lib(lambda: calendar(key), 'calendar(key)')
+                    if not weekend:
+                        continue
+                    lib(lambda: calendar(obj, weekend=weekend), 'calendar(calendar_object, weekend=...)')
+                    refs[tkey] = Ref(sorted(old.h), weekend, old.t0, old.t1, 'm')      # holidays (also those on old weekend days) are inherited
+                    res.probe('reregistration-with-another-weekend')
                 else:
                     old = refs[tkey]
                     obj = lib(lambda: calendar(key), 'calendar(key)')
@@ -549,7 +571,7 @@ def signature(trace, violation):
 
 
 PROBES = ['query-after-reregistration', 'reregistration-over-warm-table', 'holiday-run-across-month-end', 'modified-following-falls-back',
-          'single-step-before-populate', 'query-near-range-edge', 'caller-edits-returned-drange']
+          'single-step-before-populate', 'query-near-range-edge', 'caller-edits-returned-drange', 'reregistration-with-another-weekend', 'many-other-keys-registered']
 TIERS = {'quick': {'runs': 6000, 'wallcap': 50}, 'thorough': {'runs': 350000, 'wallcap': 800}}
 COMPONENTS = {
     'real': ['pyg_base._drange Calendar (is_bday, is_holiday, adjust, add, bdays, drange, dt_bump, clock, _populate)', 'pyg_base._drange.calendar() and the calendars registry',
